@@ -69,7 +69,7 @@ class R:
     def _ret(self, h, m, e, in_trait=False):
         if h["kind"] == "query":
             r = self.tty(h["resp_ti"]) if in_trait else self.ty(h["resp_ti"])
-            if h.get("resp_explicit"):
+            if h.get("resp_explicit") and not h.get("resp_literal"):
                 return f"svmon::QResult<{r}, {'StdError' if h['ret_err'] == 'std' else e}>"
             return f"StdResult<{r}>" if h["ret_err"] == "std" else f"Result<{r}, {e}>"
         return f"StdResult<Response<{m}>>" if h["ret_err"] == "std" else f"Result<Response<{m}>, {e}>"
@@ -87,8 +87,12 @@ class R:
         if h["kind"] == "query" and h.get("resp_explicit"):
             extra = f", resp={h['resp_explicit']}"
         lines = [h.get("msg_attr_text") or f"#[sv::msg({h['kind']}{extra})]"]
-        for at in h.get("sv_attrs", []):
-            lines.append(f"#[sv::attr({at})]")
+        above = h.get("sv_attrs_above", 0)
+        for i, at in enumerate(h.get("sv_attrs", [])):
+            if i < above:
+                lines.insert(i, f"#[sv::attr({at})]")
+            else:
+                lines.append(f"#[sv::attr({at})]")
         for at in h.get("foreign_attrs", []):
             lines.append(f"#[{at}]")
         return lines
